@@ -42,6 +42,19 @@ def requests(ctx):
             p = os.path.join(gen_dir, f"e{k}.{ext}")
             open(p, "wb").write(data)
             rq.append(f"entryfile {p}")
+    # CRLF recordings of several production chunks (body > 32 KiB): a periodic body shifted byte by byte, so that the chunk
+    # boundaries of the memory-mapped multi-threaded driver fall on every position relative to the `\r\n#<time>` lines
+    for k in range(13 if quick else 26):
+        p = os.path.join(gen_dir, f"crlf{k}.vcd")
+        hdr = b"$timescale 1ns $end\r\n$scope module top $end\r\n$var wire 1 ! a $end\r\n$var wire 8 # b $end\r\n$upscope $end\r\n$enddefinitions $end\r\n"
+        lines = [b"$comment " + b"p" * k + b" $end", b"#1000", b"0!", b"b00000000 #"]
+        for t in range(1001, 1001 + (3300 if k < 13 else 9000)):
+            lines.append(b"#%d" % t)
+            lines.append(b"%d!" % (t & 1))
+            if t % 64 == 0:
+                lines.append(b"b%s #" % format(t % 256, "08b").encode())
+        open(p, "wb").write(hdr + b"\r\n".join(lines) + b"\r\n")
+        rq.append(f"entryfile {p}")
     return rq
 
 
